@@ -32,6 +32,12 @@ type sessOp struct {
 	T         int    `json:"t,omitempty"`
 	WithWill  bool   `json:"withwill,omitempty"`
 	Ms        int    `json:"ms,omitempty"`
+	// C10: concurrent CONNECTs on one identifier (op "race"), optionally with the attached connection being
+	// dropped by its client at the same moment; and a CONNECT aimed at a timer deadline (At seconds after the
+	// identifier's last connection end)
+	Racers  []sessOp `json:"racers,omitempty"`
+	DropCur bool     `json:"dropcur,omitempty"`
+	At      int      `json:"at,omitempty"`
 }
 
 type sessCase struct {
@@ -40,8 +46,10 @@ type sessCase struct {
 }
 
 type sessStep struct {
-	Ev  string   `json:"ev"`
-	Obs [][4]int `json:"obs"`
+	Ev   string   `json:"ev"`
+	Obs  [][4]int `json:"obs"`
+	Race []string `json:"race,omitempty"`
+	Ign  int      `json:"ign,omitempty"`
 }
 
 type sessObs struct {
@@ -75,6 +83,8 @@ type sessRun struct {
 	b         *Broker
 	persist   vlpersistence.IFace
 	pub       *Auto
+	pub5      *Auto
+	down      bool // between stop and restart
 	wmu       sync.Mutex
 	wrecv     [][2]int // provider-level recording stub: (kind 0 will / 1 marker, id or 0, tag) flattened as (id*1000+kind, tag)
 	stopping  bool
@@ -87,11 +97,12 @@ type sessRun struct {
 	nextCid   int
 	last      time.Time
 	deadlines []time.Time
+	ended     map[int]time.Time // id -> when its last connection end had been processed
 	markers   int
 }
 
 func (r *sessRun) startBroker() error {
-	b, err := NewBroker(BrokerOpts{Preempt: r.c.Preempt, Persist: r.persist})
+	b, err := NewBroker(BrokerOpts{Preempt: r.c.Preempt, Persist: r.persist, SubsID: true})
 	if err != nil {
 		return err
 	}
@@ -113,6 +124,11 @@ func (r *sessRun) startBroker() error {
 		return fmt.Errorf("publisher: %v", err)
 	}
 	r.pub = pc.Auto(false)
+	pc5 := b.Dial()
+	if _, err := pc5.Connect(ConnectOpts{ID: "P5", Ver: mqttp.ProtocolV50, Clean: true}); err != nil {
+		return fmt.Errorf("publisher: %v", err)
+	}
+	r.pub5 = pc5.Auto(false)
 	return nil
 }
 
@@ -133,6 +149,9 @@ func (s *sessStub) Publish(m *mqttp.Publish, _ mqttp.QosType, _ mqttp.Subscripti
 }
 
 func (r *sessRun) marker() bool {
+	if r.down {
+		return true
+	}
 	r.markers++
 	want := r.markers
 	m := mqttp.NewPublish(mqttp.ProtocolV311)
@@ -186,9 +205,20 @@ func (r *sessRun) collect() [][4]int {
 	for _, cid := range cids {
 		a := r.all[cid]
 		a.mu.Lock()
-		for _, m := range a.Pubs[r.seenPubs[cid]:] {
+		for j, m := range a.Pubs[r.seenPubs[cid]:] {
 			if len(m.Payload()) == 1 {
-				o = append(o, [4]int{3, cid, int(m.Payload()[0]), 0})
+				bad := 0
+				if a.Ver == mqttp.ProtocolV50 {
+					// every subscription of a v5 client carries the identifier topic+1: it has to come back
+					// with the message (also from a session restored after a restart)
+					var tn int
+					fmt.Sscanf(m.Topic(), "t/%d", &tn)
+					ids := subIDs(a.PubRaw[r.seenPubs[cid]+j])
+					if len(ids) != 1 || ids[0] != tn+1 {
+						bad = 9
+					}
+				}
+				o = append(o, [4]int{3, cid, int(m.Payload()[0]), bad})
 			}
 		}
 		r.seenPubs[cid] = len(a.Pubs)
@@ -271,7 +301,7 @@ func optZ(v int64) string {
 
 func (p *sessProp) Run(ci interface{}) interface{} {
 	c := ci.(*sessCase)
-	r := &sessRun{c: c, obs: &sessObs{}, cur: map[int]*Auto{}, curCid: map[int]int{}, all: map[int]*Auto{}, seenPubs: map[int]int{}, seenClose: map[int]bool{}}
+	r := &sessRun{c: c, obs: &sessObs{}, cur: map[int]*Auto{}, curCid: map[int]int{}, all: map[int]*Auto{}, seenPubs: map[int]int{}, seenClose: map[int]bool{}, ended: map[int]time.Time{}}
 	if err := r.startBroker(); err != nil {
 		r.obs.Err = err.Error()
 		return r.obs
@@ -294,34 +324,21 @@ func (p *sessProp) Run(ci interface{}) interface{} {
 		r.tick()
 		switch op.Op {
 		case "connect":
-			r.nextCid++
-			cid := r.nextCid
-			ver := mqttp.ProtocolV311
-			if op.V5 {
-				ver = mqttp.ProtocolV50
-			}
-			o := ConnectOpts{ID: fmt.Sprintf("s%d", op.ID), Ver: ver, Clean: op.Clean}
-			if op.V5 && op.Expiry >= 0 {
-				e := uint32(op.Expiry)
-				o.Expiry = &e
-			}
-			wl := "None"
-			if op.WillDelay > -2 {
-				wm := mqttp.NewPublish(ver)
-				_ = wm.Set(fmt.Sprintf("will/%d", op.ID), []byte{byte(200 + k%50)}, 0, false, false)
-				d := 0
-				if op.V5 && op.WillDelay >= 0 {
-					_ = wm.PropertySet(mqttp.PropertyWillDelayInterval, uint32(op.WillDelay))
-					d = op.WillDelay
+			if op.At > 0 && r.cur[op.ID] == nil && !r.ended[op.ID].IsZero() {
+				// aim at the deadline of a timer of this identifier
+				d := r.ended[op.ID].Add(time.Duration(op.At) * time.Second)
+				if time.Until(d) > 320*time.Millisecond {
+					time.Sleep(time.Until(d.Add(-300 * time.Millisecond)))
+					r.tick()
+					if left := time.Until(d); left > 200*time.Millisecond && left < 400*time.Millisecond {
+						if msg := r.connectAtDeadline(k, op, d); msg != "" {
+							return fail("%s", msg)
+						}
+						continue
+					}
 				}
-				o.Will = wm
-				wl = fmt.Sprintf("(Some (mkWill %d%%N %d%%N %d))", 200+k%50, 100+op.ID, d*1000)
 			}
-			exp := "None"
-			if op.V5 {
-				exp = optZ(op.Expiry)
-			}
-			ev := fmt.Sprintf("(EConnect %d%%N %d%%N %s %s %s %s)", cid, op.ID, cBool(op.V5), cBool(op.Clean), exp, wl)
+			cid, o, ev := r.connectOpts(k, op)
 			cl := r.b.Dial()
 			ack, err := cl.Connect(o)
 			if err != nil {
@@ -357,7 +374,11 @@ func (p *sessProp) Run(ci interface{}) interface{} {
 				continue
 			}
 			n := a.CountOthers(mqttp.SUBACK)
-			_ = a.SendL(mkSubscribe(a.Ver, uint16(k+1), []string{fmt.Sprintf("t/%d", op.T)}, []byte{1}))
+			sp := mkSubscribe(a.Ver, uint16(k+1), []string{fmt.Sprintf("t/%d", op.T)}, []byte{1})
+			if a.Ver == mqttp.ProtocolV50 {
+				_ = sp.PropertySet(mqttp.PropertySubscriptionIdentifier, uint32(op.T+1))
+			}
+			_ = a.SendL(sp)
 			if !a.WaitFor(5*time.Second, func() bool {
 				j := 0
 				for _, o := range a.Others {
@@ -369,13 +390,24 @@ func (p *sessProp) Run(ci interface{}) interface{} {
 			}) {
 				return fail("step %d: no suback", k)
 			}
+			if !pingBarrier(a) { // the retained message of the topic has arrived
+				return fail("step %d: ping barrier", k)
+			}
 			r.emit(fmt.Sprintf("(ESubscribe %d%%N %d%%N)", op.ID, op.T), r.collect())
-		case "pub":
-			n := r.pub.CountOthers(mqttp.PUBACK)
-			_ = r.pub.SendL(mkPublish(mqttp.ProtocolV311, fmt.Sprintf("t/%d", op.T), []byte{byte(k + 1)}, 1, false, uint16(k+1)))
-			if !r.pub.WaitFor(5*time.Second, func() bool {
+		case "pub", "retain", "unretain":
+			pb := r.pub
+			if op.V5 {
+				pb = r.pub5
+			}
+			n := pb.CountOthers(mqttp.PUBACK)
+			payload := []byte{byte(k + 1)}
+			if op.Op == "unretain" {
+				payload = []byte{}
+			}
+			_ = pb.SendL(mkPublish(pb.Ver, fmt.Sprintf("t/%d", op.T), payload, 1, op.Op != "pub", uint16(k+1)))
+			if !pb.WaitFor(5*time.Second, func() bool {
 				j := 0
-				for _, o := range r.pub.Others {
+				for _, o := range pb.Others {
 					if o.Type() == mqttp.PUBACK {
 						j++
 					}
@@ -394,7 +426,14 @@ func (p *sessProp) Run(ci interface{}) interface{} {
 					}
 				}
 			}
-			r.emit(fmt.Sprintf("(EPublish %d%%N %d%%N)", k+1, op.T), r.collect())
+			switch op.Op {
+			case "pub":
+				r.emit(fmt.Sprintf("(EPublish %d%%N %d%%N)", k+1, op.T), r.collect())
+			case "retain":
+				r.emit(fmt.Sprintf("(ERetain %d%%N %d%%N)", k+1, op.T), r.collect())
+			default:
+				r.emit(fmt.Sprintf("(EUnretain %d%%N)", op.T), r.collect())
+			}
 		case "disc", "drop", "proto":
 			a := r.cur[op.ID]
 			if a == nil || a.Closed() {
@@ -435,6 +474,7 @@ func (p *sessProp) Run(ci interface{}) interface{} {
 			a.Close()
 			r.cur[op.ID] = nil
 			t0 := time.Now()
+			r.ended[op.ID] = t0
 			for _, s := range []int{1, 2} {
 				r.deadlines = append(r.deadlines, t0.Add(time.Duration(s)*time.Second))
 			}
@@ -442,6 +482,43 @@ func (p *sessProp) Run(ci interface{}) interface{} {
 				return fail("step %d: marker", k)
 			}
 			r.emit(ev, r.collect())
+		case "abort":
+			// the client is gone when the broker writes its CONNACK.  Only for a clean, will-less CONNECT.
+			op.Clean, op.WillDelay = true, -2
+			cid, o, ev := r.connectOpts(k, op)
+			cl := r.b.Dial()
+			cl.conn.(*bufConn).Deafen()
+			_, _ = cl.Connect(o)
+			select {
+			case <-cl.done:
+			case <-time.After(5 * time.Second):
+				r.emit(ev, append(r.collect(), [4]int{6, cid, 0, 0}))
+				return fail("step %d: CONNECT whose CONNACK cannot be written: processing did not finish", k)
+			}
+			cl.Close()
+			r.seenClose[cid] = true
+			if old := r.cur[op.ID]; old != nil && !old.Closed() && !c.Preempt {
+				// refused: the attached connection stays as it is
+			} else {
+				if old != nil {
+					old.WaitFor(5*time.Second, func() bool { return false })
+					r.cur[op.ID] = nil
+				}
+				t0 := time.Now()
+				r.ended[op.ID] = t0
+				for _, s := range []int{1, 2} {
+					r.deadlines = append(r.deadlines, t0.Add(time.Duration(s)*time.Second))
+				}
+			}
+			if !r.marker() {
+				return fail("step %d: marker", k)
+			}
+			r.obs.Steps = append(r.obs.Steps, sessStep{Ev: ev, Obs: r.collect(), Ign: cid})
+			r.obs.Steps = append(r.obs.Steps, sessStep{Ev: fmt.Sprintf("(EDropC %d%%N %d%%N)", cid, op.ID), Obs: [][4]int{}, Ign: cid})
+		case "race":
+			if msg := r.race(k, op); msg != "" {
+				return fail("%s", msg)
+			}
 		case "wait":
 			time.Sleep(time.Duration(op.Ms) * time.Millisecond)
 			r.tick()
@@ -467,11 +544,13 @@ func (p *sessProp) Run(ci interface{}) interface{} {
 				}
 			}
 			r.pub.WaitFor(2*time.Second, func() bool { return false })
+			r.pub5.WaitFor(2*time.Second, func() bool { return false })
 			r.marker()
 			wills := r.collect()
 			r.stopping = false
 			r.b.ShutdownTopics()
 			stopped = true
+			r.down = true
 			r.emit("EStop", append(o, wills...))
 			if len(o) == 0 {
 				return fail("step %d: Stop did not return", k)
@@ -497,6 +576,7 @@ func (p *sessProp) Run(ci interface{}) interface{} {
 				return fail("step %d: restart hung (NewManager did not return)", k)
 			}
 			stopped = false
+			r.down = false
 			r.markers = 0
 			r.emit("ERestart", r.collect())
 		}
@@ -513,7 +593,7 @@ func (p *sessProp) Coq(ci interface{}, oi interface{}) string {
 		for j, x := range s.Obs {
 			it[j] = fmt.Sprintf("(%d%%N, %d%%N, %d%%N, %d%%N)", x[0], x[1], x[2], x[3])
 		}
-		steps[i] = fmt.Sprintf("(mkStep %s %s)", s.Ev, cList(it))
+		steps[i] = fmt.Sprintf("(mkStep %s %s %s %d%%N)", s.Ev, cList(it), cList(s.Race), s.Ign)
 	}
 	return fmt.Sprintf("(mkCase %s %s %s)", cBool(c.Preempt), cList(steps), cBool(o.Err == ""))
 }
@@ -540,4 +620,210 @@ func (p *sessProp) Class(ci interface{}, oi interface{}) (string, bool) {
 		l += "+will"
 	}
 	return l, recon > 1
+}
+
+// connectOpts allocates a connection number and builds the CONNECT options and the model event of a connect op
+func (r *sessRun) connectOpts(k int, op sessOp) (int, ConnectOpts, string) {
+	r.nextCid++
+	cid := r.nextCid
+	ver := mqttp.ProtocolV311
+	if op.V5 {
+		ver = mqttp.ProtocolV50
+	}
+	o := ConnectOpts{ID: fmt.Sprintf("s%d", op.ID), Ver: ver, Clean: op.Clean}
+	if op.V5 && op.Expiry >= 0 {
+		e := uint32(op.Expiry)
+		o.Expiry = &e
+	}
+	wl := "None"
+	if op.WillDelay > -2 {
+		tag := 150 + (k*4+cid)%100
+		wm := mqttp.NewPublish(ver)
+		_ = wm.Set(fmt.Sprintf("will/%d", op.ID), []byte{byte(tag)}, 0, false, false)
+		d := 0
+		if op.V5 && op.WillDelay >= 0 {
+			_ = wm.PropertySet(mqttp.PropertyWillDelayInterval, uint32(op.WillDelay))
+			d = op.WillDelay
+		}
+		o.Will = wm
+		wl = fmt.Sprintf("(Some (mkWill %d%%N %d%%N %d))", tag, 100+op.ID, d*1000)
+	}
+	exp := "None"
+	if op.V5 {
+		exp = optZ(op.Expiry)
+	}
+	ev := fmt.Sprintf("(EConnect %d%%N %d%%N %s %s %s %s)", cid, op.ID, cBool(op.V5), cBool(op.Clean), exp, wl)
+	return cid, o, ev
+}
+
+// connectAtDeadline: a timer of the identifier fires at d (within a few milliseconds); the CONNECT is sent at
+// that moment.  Either order of the two is a correct outcome: the step is a race between the passage of
+// time across the deadline and the CONNECT.
+func (r *sessRun) connectAtDeadline(k int, op sessOp, d time.Time) string {
+	cid, o, ev := r.connectOpts(k, op)
+	cl := r.b.Dial()
+	jitter := time.Duration(int64(k*7919+cid*104729)%5-2) * time.Millisecond
+	time.Sleep(time.Until(d.Add(jitter)))
+	ack, err := cl.Connect(o)
+	if err != nil {
+		r.emit(ev, append(r.collect(), [4]int{6, cid, 0, 0}))
+		return fmt.Sprintf("step %d: CONNECT at a timer deadline not answered: %v", k, err)
+	}
+	a := cl.Auto(false)
+	r.all[cid] = a
+	sp := 0
+	if ack.SessionPresent() {
+		sp = 1
+	}
+	obsl := [][4]int{{1, cid, sp, int(ack.ReturnCode())}}
+	r.cur[op.ID], r.curCid[op.ID] = a, cid
+	if !pingBarrier(a) {
+		return fmt.Sprintf("step %d: ping barrier", k)
+	}
+	// the model's clock moves 600 ms across the deadline
+	r.last = r.last.Add(600 * time.Millisecond)
+	if w := time.Until(r.last); w > 0 {
+		time.Sleep(w)
+	}
+	if !r.marker() {
+		return fmt.Sprintf("step %d: marker", k)
+	}
+	if !pingBarrier(a) {
+		return fmt.Sprintf("step %d: ping barrier", k)
+	}
+	r.obs.Steps = append(r.obs.Steps, sessStep{Ev: "(ETick 600)", Obs: append(obsl, r.collect()...), Race: []string{ev}})
+	return ""
+}
+
+// race: the racers send CONNECT for one identifier at the same moment (optionally the attached connection is
+// closed by its client at that moment too)
+func (r *sessRun) race(k int, op sessOp) string {
+	type racer struct {
+		cid int
+		o   ConnectOpts
+		ev  string
+		cl  *Client
+		a   *Auto
+		ack *mqttp.ConnAck
+		err error
+	}
+	var rs []*racer
+	for _, ro := range op.Racers {
+		ro.ID = op.ID
+		cid, o, ev := r.connectOpts(k, ro)
+		rs = append(rs, &racer{cid: cid, o: o, ev: ev, cl: r.b.Dial()})
+	}
+	old := r.cur[op.ID]
+	oldCid := r.curCid[op.ID]
+	if old != nil && old.Closed() {
+		old = nil
+	}
+	start := make(chan struct{})
+	var wg sync.WaitGroup
+	for _, x := range rs {
+		wg.Add(1)
+		go func(x *racer) {
+			defer wg.Done()
+			<-start
+			x.ack, x.err = x.cl.Connect(x.o)
+			if x.err == nil {
+				x.a = x.cl.Auto(false)
+			}
+		}(x)
+	}
+	ign := 0
+	var evs []string
+	if op.DropCur && old != nil {
+		ign = oldCid
+		evs = append(evs, fmt.Sprintf("(EDropC %d%%N %d%%N)", oldCid, op.ID))
+		wg.Add(1)
+		go func() {
+			defer wg.Done()
+			<-start
+			old.Close()
+		}()
+		r.seenClose[oldCid] = true
+	}
+	close(start)
+	wg.Wait()
+	var obsl [][4]int
+	accepted := 0
+	for _, x := range rs {
+		evs = append(evs, x.ev)
+		if x.err != nil {
+			r.obs.Steps = append(r.obs.Steps, sessStep{Ev: evs[0], Obs: append(r.collect(), [4]int{6, x.cid, 0, 0}), Race: evs[1:], Ign: ign})
+			return fmt.Sprintf("step %d: one of %d racing CONNECTs was not answered: %v", k, len(rs), x.err)
+		}
+		r.all[x.cid] = x.a
+		sp := 0
+		if x.ack.SessionPresent() {
+			sp = 1
+		}
+		obsl = append(obsl, [4]int{1, x.cid, sp, int(x.ack.ReturnCode())})
+		if x.ack.ReturnCode() == 0 {
+			accepted++
+		} else {
+			r.seenClose[x.cid] = true
+			x.a.WaitFor(5*time.Second, func() bool { return false })
+		}
+	}
+	// all but one of the connections attached during the race get closed by the broker
+	live := func() []*racer {
+		var l []*racer
+		for _, x := range rs {
+			if x.ack.ReturnCode() == 0 && !x.a.Closed() {
+				l = append(l, x)
+			}
+		}
+		return l
+	}
+	want := 1
+	if accepted == 0 {
+		want = 0
+	}
+	deadline := time.Now().Add(5 * time.Second)
+	for len(live()) > want && time.Now().Before(deadline) {
+		time.Sleep(time.Millisecond)
+	}
+	if accepted > 0 && old != nil {
+		old.WaitFor(5*time.Second, func() bool { return false })
+	}
+	l := live()
+	if len(l) >= 1 {
+		r.cur[op.ID], r.curCid[op.ID] = l[len(l)-1].a, l[len(l)-1].cid
+	} else if accepted > 0 || (op.DropCur && old != nil) {
+		r.cur[op.ID] = nil
+	}
+	// every connection end of the race has been processed by the manager: attached sessions = those the
+	// harness holds (+ the publisher)
+	wantLive := int64(2)
+	for _, a := range r.cur {
+		if a != nil && !a.Closed() {
+			wantLive++
+		}
+	}
+	dl := time.Now().Add(5 * time.Second)
+	for r.b.Met.Connected()-r.b.Met.Disconnected() != wantLive && time.Now().Before(dl) {
+		time.Sleep(time.Millisecond)
+	}
+	for _, x := range l {
+		if !pingBarrier(x.a) {
+			return fmt.Sprintf("step %d: ping barrier", k)
+		}
+	}
+	if !r.marker() {
+		return fmt.Sprintf("step %d: marker", k)
+	}
+	if r.cur[op.ID] == nil {
+		t0 := time.Now()
+		r.ended[op.ID] = t0
+		for _, s := range []int{1, 2} {
+			r.deadlines = append(r.deadlines, t0.Add(time.Duration(s)*time.Second))
+		}
+	}
+	r.obs.Steps = append(r.obs.Steps, sessStep{Ev: evs[0], Obs: append(obsl, r.collect()...), Race: evs[1:], Ign: ign})
+	if len(l) > 1 {
+		return fmt.Sprintf("step %d: %d connections stay attached to one client identifier", k, len(l))
+	}
+	return ""
 }
